@@ -26,13 +26,15 @@ MODELLED_NOT_VERIFIED = [
     "NexmlWriter._write_format_section, _NexmlCharBlockParser, _link_blocks/_get_block_title/_get_taxon_namespace; tied to the code "
     "by per-case comparison of written text and read-back content; the symbol tables are regenerated from charstatemodel.py",
 ]
-EXPLANATION = ("Theorems: symbol_roundtrip (every canonical symbol of every generated alphabet denotes itself; case variants and "
-               "synonyms denote the canonical symbol), format_roundtrip (FORMAT terms of each fixed type parse back to the type with "
-               "gap/missing/matchchar), cells_roundtrip (rendered row text reads back cell by cell incl. {..}/(..) tokens), "
-               "nexus_row_roundtrip, phylip_line_roundtrip_relaxed/_strict (label splitting), fasta_wrap_roundtrip, "
-               "nexml_columns_partial (one char id per column index listed in order => rows unshifted), title_link_resolves "
-               "(distinct titles => every LINK resolves to its own namespace for suppress_block_titles None/False), "
-               "link_blocks_spec. Whole-matrix accumulation across rows is _partial (row level proved; matrix level by correspondence).")
+EXPLANATION = ("Theorems (Props/C09.lean): symbol_roundtrip, symbol_case_insensitive, symbol_synonyms, ambiguity_token_roundtrip (generated "
+               "tables: every symbol / lower-case form / declared synonym denotes its state; {..} tokens find their code); "
+               "format_roundtrip (fixed types) and format_standard_roundtrip_partial (the generator's symbol sets); cells_roundtrip (row text "
+               "incl. {..}/(..) cells in any member order reads back cell by cell); nexus_matrix_roundtrip (whole sequential matrix, TAXA-block and "
+               "DATA-block entry); nexml_columns_partial + nexml_matrix_columns (repaired column ids => every row unshifted, ragged rows too); "
+               "assignTitles_distinct (pigeonhole: de-duplicated titles pairwise distinct up to case, fuel suffices) and title_link_resolves "
+               "(every LINK resolves to its own namespace for suppress_block_titles None/False, any labels); _partial fragments only for PHYLIP "
+               "label splitting, FASTA wrapping. Interleaved layouts, match characters, PHYLIP/FASTA whole files, continuous values, conversion "
+               "chains and tree lists are covered by correspondence and oracle only.")
 
 NS = "{http://www.nexml.org/2009}"
 
@@ -41,6 +43,7 @@ NS = "{http://www.nexml.org/2009}"
 SYMS = {
     "dna": "ACGTNRYMWSKVHDB-?",
     "rna": "ACGUNRYMWSKVHDB-?",
+    "nucleotide": "ACGTUNRYMWSKVHDB-?",
     "protein": "ACDEFGHIKLMNPQRSTVWY*BZX-?",
     "standard": "0123456789-?",
     "restriction": "10",
@@ -49,21 +52,23 @@ SYMS = {
 AMBIG = {
     "dna": {"N": "ACGT", "R": "AG", "Y": "CT", "M": "AC", "W": "AT", "S": "CG", "K": "GT", "V": "ACG", "H": "ACT", "D": "AGT", "B": "CGT"},
     "rna": {"N": "ACGU", "R": "AG", "Y": "CU", "M": "AC", "W": "AU", "S": "CG", "K": "GU", "V": "ACG", "H": "ACU", "D": "AGU", "B": "CGU"},
+    "nucleotide": {"N": "ACGTU", "R": "AG", "Y": "CTU", "M": "AC", "W": "ATU", "S": "CG", "K": "GTU", "V": "ACG", "H": "ACTU",
+                   "D": "AGTU", "B": "CGTU"},
     "protein": {"B": "DN", "Z": "EQ"},
 }
 SPECIAL = set("NRYMWSKVHDBZX-?")
 SUPPORTED = {
-    "nexus": {"dna", "rna", "protein", "standard", "continuous"},
-    "phylip": {"dna", "rna", "protein", "standard", "restriction", "infinite", "continuous"},
-    "fasta": {"dna", "rna", "protein", "standard", "restriction", "infinite"},
+    "nexus": {"dna", "rna", "nucleotide", "protein", "standard", "continuous"},
+    "phylip": {"dna", "rna", "nucleotide", "protein", "standard", "restriction", "infinite", "continuous"},
+    "fasta": {"dna", "rna", "nucleotide", "protein", "standard", "restriction", "infinite"},
     "nexml": {"dna", "rna", "protein", "standard", "restriction", "continuous"},
 }
 FORMATS = ["nexus", "phylip", "fasta", "nexml"]
-DTYPES = ["dna", "rna", "protein", "standard", "restriction", "infinite", "continuous"]
+DTYPES = ["dna", "rna", "nucleotide", "protein", "standard", "restriction", "infinite", "continuous"]   # nucleotide: no NeXML type
 
 
 def matrix_class(dendropy, dt):
-    return {"dna": dendropy.DnaCharacterMatrix, "rna": dendropy.RnaCharacterMatrix, "protein": dendropy.ProteinCharacterMatrix,
+    return {"dna": dendropy.DnaCharacterMatrix, "rna": dendropy.RnaCharacterMatrix, "nucleotide": dendropy.NucleotideCharacterMatrix, "protein": dendropy.ProteinCharacterMatrix,
             "standard": dendropy.StandardCharacterMatrix, "restriction": dendropy.RestrictionSitesCharacterMatrix,
             "infinite": dendropy.InfiniteSitesCharacterMatrix, "continuous": dendropy.ContinuousCharacterMatrix}[dt]
 
@@ -98,7 +103,7 @@ def content(m):
 
 def cells_equal(a, b):
     if isinstance(a, float) or isinstance(b, float):
-        return isinstance(a, float) and isinstance(b, float) and (a == b) and (str(a) == str(b))
+        return isinstance(a, float) and isinstance(b, float) and a == b      # "equal numbers": -0.0 equals 0.0
     return a == b
 
 
@@ -262,7 +267,7 @@ def gen_nexus_parse(rng, dt, labels, rows, std_syms):
     interleave = rng.random() < 0.4 and nchar >= 2
     use_match = dt != "standard" and rng.random() < 0.4
     use_tokens = rng.random() < 0.5
-    terms = ["DATATYPE=%s" % {"dna": "DNA", "rna": "RNA", "protein": "PROTEIN", "standard": "STANDARD"}[dt]]
+    terms = ["DATATYPE=%s" % {"dna": "DNA", "rna": "RNA", "nucleotide": "NUCLEOTIDE", "protein": "PROTEIN", "standard": "STANDARD"}[dt]]
     if dt == "dna" and rng.random() < 0.2:
         terms = ["DATATYPE=NUCLEOTIDES"]
     if dt == "standard" and (std_syms is not None or rng.random() < 0.5):
@@ -608,16 +613,43 @@ def parse_nexus_written(text):
             if s:
                 seqs.append(s.rsplit(None, 1)[-1] if " " in s else "")
             continue
-        if s.startswith("DIMENSIONS") and "NCHAR" in s:
-            dims = s.rstrip(";")
-        elif s.startswith("FORMAT"):
-            fmt = s[len("FORMAT"):].strip().rstrip(";")
+        su = s.upper()
+        if su.startswith("DIMENSIONS") and "NCHAR" in su:
+            dims = " ".join(s.rstrip(";").split())
+        elif su.startswith("FORMAT"):
+            fmt = " ".join(s[len("FORMAT"):].strip().rstrip(";").split())
             fmt = re.sub(r'SYMBOLS="([^"]*)"', lambda m: 'SYMBOLS="%s"' % "".join(sorted(set(m.group(1)))), fmt)
             terms = fmt.split(" ")
             fmt = " ".join(t for i, t in enumerate(terms) if i == 0 or t != terms[i - 1])   # a repeated term is harmless
-        elif s == "MATRIX":
+        elif su == "MATRIX":
             in_matrix = True
     return dims, fmt, seqs
+
+
+def canon_phylip(text, strict):
+    """what a PHYLIP document says, layout aside: the two header numbers and (label, sequence) per row"""
+    lines = [l for l in re.split(r"\r\n|\n|\r", text) if l.strip()]
+    out = [" ".join(lines[0].split())] if lines else []
+    for l in lines[1:]:
+        if strict:
+            out.append(l[:10].rstrip() + "|" + "".join(l[10:].split()))
+        else:
+            parts = l.split(None, 1) if not l[:1].isspace() else ["", l]
+            m = re.match(r"^(.*?\S)\s{2,}(\S.*)$", l)
+            lab, seq = (m.group(1), m.group(2)) if m else (parts[0], parts[1] if len(parts) > 1 else "")
+            out.append(lab + "|" + "".join(seq.split()))
+    return "\n".join(out)
+
+
+def canon_fasta(text):
+    """records of a FASTA document: name line and the sequence without line structure"""
+    out = []
+    for l in text.split("\n"):
+        if l.startswith(">"):
+            out.append([l[1:].strip(), ""])
+        elif l.strip() and out:
+            out[-1][1] += "".join(l.split())
+    return "\n".join("%s|%s" % (a, b) for a, b in out)
 
 
 def cells_field(cells):
@@ -749,7 +781,7 @@ def exec_matrix(ctx, dendropy, spec, pending):
         pending.append((line, spec, " ".join([hex6(dims or "")] + [hex6(fterms or "")] + [hex6(s) for s in seqs]), "nxwrite"))
     elif fmt == "phylip" and sym_only and ascii_ok(labels) and labels_admissible(fmt, w, r, labels) and via != "subset":
         line = "phwrite %d %d %s" % (1 if w.get("strict") else 0, 1 if w.get("spaces_to_underscores") else 0, rows_field(ref))
-        pending.append((line, spec, " ".join(hex6(x) for x in text.split("\n")[:-1]), "phwrite"))
+        pending.append((line, spec, canon_phylip(text, bool(w.get("strict"))), "phwrite:%d" % (1 if w.get("strict") else 0)))
         lines = re.split(r"\r\n|\n|\r", text)
         line = "phread %s %d %d %d %d %s" % (dtf, 1 if r.get("strict") else 0, 1 if r.get("interleaved") else 0,
                                             1 if r.get("multispace_delimiter") else 0, 1 if r.get("underscores_to_spaces") else 0,
@@ -757,7 +789,7 @@ def exec_matrix(ctx, dendropy, spec, pending):
         pending.append((line, spec, "err" if got is None else "ok " + rows_field(got), "phread"))
     elif fmt == "fasta" and sym_only and ascii_ok(labels):
         if w.get("wrap", True):
-            pending.append(("fawrite " + rows_field(ref), spec, hex6(text), "fawrite"))
+            pending.append(("fawrite " + rows_field(ref), spec, canon_fasta(text), "fawrite"))
         pending.append(("faread %s %s" % (dtf, hex6(text)), spec, "err" if got is None else "ok " + rows_field(got), "faread"))
     elif fmt == "nexml":
         try:
@@ -793,9 +825,17 @@ def flush(ctx, pending):
             continue
         ctx.compared()
         mo = mo.strip()
+        if op == "nexmlstatus":
+            st = "err" if "err" in mo.split() else "ok"
+            if st != impl:
+                ctx.disagree("nexmlread", spec, impl, st)
+            continue
         if op == "nexmlread":
             got, sym_of = impl
             rows = []
+            if "err" in mo.split():
+                ctx.disagree(op, spec, "ok", "err (cell names an undefined <char>)")
+                continue
             for w in mo.split():
                 rows.append([] if w == "-" else ["_" if x == "_" else (sym_of.get(int(x)) or "multi") for x in w.split(",")])
             a = [[("_" if c is None else (c if isinstance(c, str) else "multi")) for c in cells] for _, cells in got]
@@ -803,6 +843,11 @@ def flush(ctx, pending):
             if a != b:
                 ctx.disagree(op, spec, str(a)[:300], str(b)[:300])
             continue
+        if op.startswith("phwrite"):
+            mo = canon_phylip("\n".join(unhex6(x) or "" for x in mo.split()), op.endswith("1"))
+            op = "phwrite"
+        elif op == "fawrite":
+            mo = canon_fasta(unhex6(mo) or "")
         if op in ("nxread", "phread", "faread") and mo.startswith("err"):
             mo = "err"
         if op in ("nxread",) and impl.startswith("err"):
@@ -827,6 +872,8 @@ def gen_matrix_spec(rng, dt=None, via=None, fmt=None, dims=None):
     routes = ["dict", "dict", "concatenate", "export", "subset", "nexus", "phylip", "fasta", "nexml"]
     if dt == "continuous":
         routes = ["dict", "dict", "concatenate", "export", "nexus", "phylip", "nexml"]
+    if dt == "nucleotide":
+        routes = [x for x in routes if x != "nexml"]
     if dt in ("restriction", "infinite"):
         routes = [x for x in routes if x != "nexus"] if dt == "infinite" else [x for x in routes if x != "nexus"]
         if dt == "infinite":
@@ -955,20 +1002,20 @@ def parse_written_links(text):
     cur = None
     for line in text.split("\n"):
         s = line.strip()
-        m = re.match(r"BEGIN (\w+);", s)
+        m = re.match(r"BEGIN\s+(\w+)\s*;", s, re.I)
         if m:
-            cur = [m.group(1), None, None]
+            cur = [m.group(1).upper(), None, None]
             out.append(cur)
             continue
         if cur is None:
             continue
-        m = re.match(r"TITLE (.*);$", s)
+        m = re.match(r"TITLE\s+(.*?)\s*;$", s, re.I)
         if m and cur[1] is None and cur[2] is None:
             cur[1] = m.group(1)
-        m = re.match(r"LINK TAXA = (.*);$", s)
+        m = re.match(r"LINK\s+TAXA\s*=\s*(.*?)\s*;$", s, re.I)
         if m:
             cur[2] = m.group(1)
-        if s in ("MATRIX", "TAXLABELS") or s.startswith("TREE "):
+        if s.upper() in ("MATRIX", "TAXLABELS") or s.upper().startswith("TREE "):
             cur = None
     return out
 
@@ -1178,6 +1225,100 @@ def exec_equate(ctx, dendropy, spec):
             fmt, brief(got), brief(ref)), dict(spec, equate=True), got)
 
 
+# ---------------------------------------------------------------------------------------------- refusals (model rejects what the code rejects)
+def gen_reject_spec(rng):
+    """a well-formed source of a small discrete matrix with one defect planted; model and code must both refuse it
+    (or both accept it and agree on the content)"""
+    dt = rng.choice(["dna", "rna", "protein", "standard"])
+    syms = SYMS[dt]
+    ntax, nchar = rng.randint(2, 4), rng.randint(2, 6)
+    labels = gen_labels(rng, ntax, "simple")
+    rows = [[gen_symbol(rng, syms) for _ in range(nchar)] for _ in range(ntax)]
+    seqs = ["".join(r) for r in rows]
+    bad = "J" if dt != "protein" else "J"
+    i, j = rng.randrange(ntax), rng.randrange(nchar)
+    fmt = rng.choice(["nexus", "phylip", "fasta", "nexml"])
+    spec = {"kind": "reject", "dt": dt, "fmt": fmt}
+    if fmt == "nexus":
+        defect = rng.choice(["symbol", "toomany", "comma", "none"])
+        txt = list(seqs)
+        if defect == "symbol":
+            txt[i] = txt[i][:j] + bad + txt[i][j + 1:]
+        elif defect == "toomany":
+            txt[i] = txt[i] + syms[0]
+        elif defect == "comma":
+            txt[i] = txt[i][:j] + "(%s,%s)" % (syms[0], syms[1]) + txt[i][j + 1:]
+        simple = rng.random() < 0.5
+        spec.update(defect=defect, params={"simple": simple, "taxa": labels, "ntax": ntax, "nchar": nchar,
+                                           "fmt": "FORMAT DATATYPE=%s GAP=- MISSING=?;" % {"dna": "DNA", "rna": "RNA", "protein": "PROTEIN", "standard": "STANDARD"}[dt],
+                                           "rows": [[l, t] for l, t in zip(labels, txt)]})
+    elif fmt == "phylip":
+        defect = rng.choice(["symbol", "ntax+", "ntax-", "none"])
+        txt = list(seqs)
+        if defect == "symbol":
+            txt[i] = txt[i][:j] + bad + txt[i][j + 1:]
+        n = ntax + (1 if defect == "ntax+" else -1 if defect == "ntax-" else 0)
+        strict = rng.random() < 0.5
+        lines = ["%d %d" % (n, nchar)] + [(l.ljust(10) if strict else l + "  ") + t for l, t in zip(labels, txt)]
+        spec.update(defect=defect, text="\n".join(lines) + "\n", kw={"strict": strict})
+    elif fmt == "fasta":
+        defect = rng.choice(["symbol", "dupname", "noheader", "none"])
+        txt = list(seqs)
+        labs = list(labels)
+        if defect == "symbol":
+            txt[i] = txt[i][:j] + bad + txt[i][j + 1:]
+        elif defect == "dupname":
+            labs[-1] = labs[0].upper()
+        body = "".join(">%s\n%s\n" % (l, t) for l, t in zip(labs, txt))
+        spec.update(defect=defect, text=(txt[0] + "\n" + body) if defect == "noheader" else body)
+    else:
+        defect = rng.choice(["badchar", "none"])
+        text = compose_nexml(dt, labels, rows, None)
+        if defect == "badchar":
+            text = text.replace('<cell char="c%d" state=' % j, '<cell char="nosuchchar" state=', 1)
+        spec.update(defect=defect, text=text)
+    return spec
+
+
+def exec_reject(ctx, dendropy, spec, pending):
+    dt, fmt = spec["dt"], spec["fmt"]
+    cls = matrix_class(dendropy, dt)
+    text = compose_nexus(spec["params"]) if fmt == "nexus" else spec["text"]
+    ctx.case(["reject", spec], spec["defect"] != "none", kind="reject/%s/%s" % (fmt, spec["defect"]))
+    try:
+        with time_limit(20):
+            m = cls.get(data=text, schema=fmt, **spec.get("kw", {}))
+        got = content(m)
+        impl = "ok"
+    except Exception:
+        got, impl = None, "err"
+    if spec["defect"] == "none" and impl != "ok":
+        ctx.fail("parse:" + fmt, "well-formed %s source of a %s matrix is rejected" % (fmt, dt), spec)
+    if fmt == "nexus":
+        p = spec["params"]
+        line = "nxread %s %d %d %d %s %s" % (hex6(p["fmt"]), p["nchar"], p["ntax"] if p["simple"] else len(p["taxa"]),
+                                            0 if p["simple"] else len(p["taxa"]),
+                                            " ".join(hex6(l) for l in ([] if p["simple"] else p["taxa"])),
+                                            " ".join("%s:%s" % (hex6(l), hex6(t)) for l, t in p["rows"]))
+        pending.append((line, spec, "err" if got is None else "ok %s %s" % (dt, rows_field(got)), "nxread"))
+    elif fmt == "phylip":
+        line = "phread %s %d 0 0 0 %s" % (dt, 1 if spec["kw"].get("strict") else 0,
+                                          " ".join(hex6(x) for x in re.split(r"\r\n|\n|\r", text)))
+        pending.append((line, spec, "err" if got is None else "ok " + rows_field(got), "phread"))
+    elif fmt == "fasta":
+        pending.append(("faread %s %s" % (dt, hex6(text)), spec, "err" if got is None else "ok " + rows_field(got), "faread"))
+    else:
+        chars, states, rows = nexml_abstract(text)[0]
+        idx = {c: i for i, c in enumerate(chars)}
+        sids = {}
+        for _, cells in rows:
+            for _, st in cells:
+                sids.setdefault(st, len(sids))
+        line = "nexmlread %s %s" % (",".join(str(idx[c]) for c in chars) or "-",
+                                    " ".join(",".join("%d.%d" % (idx.get(c, 99999), sids[st]) for c, st in cells) or "-" for _, cells in rows))
+        pending.append((line, spec, impl, "nexmlstatus"))
+
+
 # ---------------------------------------------------------------------------------------------- entry points
 def exec_spec(ctx, dendropy, spec, pending):
     k = spec.get("kind")
@@ -1187,6 +1328,8 @@ def exec_spec(ctx, dendropy, spec, pending):
         exec_dataset(ctx, dendropy, spec, pending)
     elif k == "equate":
         exec_equate(ctx, dendropy, spec)
+    elif k == "reject":
+        exec_reject(ctx, dendropy, spec, pending)
     elif k in ("sym", "match"):
         check_alphabets(ctx, dendropy, pending)
     else:
@@ -1226,7 +1369,10 @@ def run(ctx):
     for k in range(ncases):
         if ctx.out_of_time():
             break
-        if rng.random() < 0.18:
+        r0 = rng.random()
+        if r0 < 0.06:
+            spec = gen_reject_spec(rng)
+        elif r0 < 0.22:
             spec = gen_dataset_spec(rng)
         else:
             spec = gen_matrix_spec(rng)
